@@ -142,7 +142,45 @@ def check_json(inp):
     return out
 
 
-CHECKS = {"json": check_json}
+def check_json_accepted(inp):
+    """
+    the statement quantifies over ACCEPTED vectors: a string the constructor accepts although it is outside the grammar
+    (C04's business; none on a tree where C04 holds) must still be identified by its JSON: vectorString is the string
+    supplied, and sort only reorders.  Metric fields of such strings have no specification and are not judged.
+    """
+    ver, s = inp["ver"], inp["s"]
+    if ref.classify(ver, s)[0] == ref.OK:
+        return check_json(inp)
+    k, o = obs.construct(ver, s)
+    if k != "ok":
+        return []
+    inp["_accepted"] = True
+    fails = []
+    for minimal in (False, True):
+        try:
+            j, js = o.as_json(sort=False, minimal=minimal), o.as_json(sort=True, minimal=minimal)
+        except BaseException as e:  # noqa
+            return [failure("as_json returns", "%s: %s" % (type(e).__name__, e), note="the constructor accepted %r" % s)]
+        for doc in (j, js):
+            if doc.get("vectorString") != s:
+                fails.append(failure(s, doc.get("vectorString"), note="vectorString must be the string supplied (accepted although outside the grammar)"))
+        if dict(j) != dict(js) or list(js) != sorted(js):
+            fails.append(failure("sort=True only reorders, ascending", [list(j), list(js)]))
+    return fails[:1]
+
+
+CHECKS = {"json": check_json, "json_accepted": check_json_accepted}
+
+
+def ball_part(shard, n_seeds, seed):
+    from . import c04
+    part = runner.Part(PID)
+    found, tried = c04.accepted_outside_grammar(shard, n_seeds, seed, 11)
+    part.count(None, classes=("one-edit-ball-member-tried",), n=tried)
+    for ver, t in found[:200]:
+        part.classes["ball-member-accepted-outside-grammar"] += 1
+        part.check("json_accepted", check_json_accepted, {"ver": ver, "s": t})
+    return part
 
 
 def zero_biased(ver):
@@ -218,6 +256,17 @@ def hyp_part(n_examples, shard):
         part.count({"ver": ver, "s": s}, nontrivial=any(d.get(k, V.nd) != V.nd for k in V.optional), classes=classes)
         part.check("json", check_json, {"ver": ver, "s": s}, hyp=True)
     runner.run_hyp(part, t, "C11.hyp")
+
+    @runner.seeded(11, 100 + shard)
+    @runner.hyp_settings(max(1, n_examples // 2))
+    @given(gen.version_key().flatmap(lambda v: st.tuples(st.just(v), gen.mutated(v, max_edits=2))))
+    def t2(c):
+        ver, (s, ops) = c
+        inp = {"ver": ver, "s": s}
+        part.check("json_accepted", check_json_accepted, inp, hyp=True)
+        acc = inp.pop("_accepted", False)
+        part.count(inp, nontrivial=acc, classes=("mutant", "mutant-accepted-by-library" if acc else "mutant-rejected-or-grammar"))
+    runner.run_hyp(part, t2, "C11.hyp.mutants")
     return part
 
 
@@ -230,11 +279,15 @@ def run(tier, t0):
     part.merge(runner.hyp_shards("vf.props.c11", "hyp_part", 4800 if tier == "quick" else 160000))
     for p in runner.parallel("vf.props.c11", "sweep_work", [(sh, 4000 if tier == "quick" else 60000, runner.SEED) for sh in range(runner.NPROC)]):
         part.merge(p)
+    for p in runner.parallel("vf.props.c11", "ball_part", [(sh, 2 if tier == "quick" else 12, runner.SEED) for sh in range(runner.NPROC)]):
+        part.merge(p)
     rule = ("accepted vectors (2/3 uniform, 1/3 biased to zero scores: v2 TD:N or no impact with temporal/environmental "
             "metrics, v3 zero (modified) impact, v4 no impact) x all four (sort, minimal) combinations inside each case; "
             "covering set of every (metric, value); sweep of seeded random quotient classes in random spellings (C09's "
-            "sampler). non-trivial = at least one optional metric defined; distinct by hash (sweep classes counted)")
+            "sampler); mutants (<= 2 edits) and complete one-edit neighbourhoods of accepted vectors: whatever the constructor "
+            "accepts outside the grammar must echo the supplied string. non-trivial = at least one optional metric defined "
+            "(mutants: accepted by the library); distinct by hash (sweep classes counted)")
     return runner.finish(part, tier, t0, rule,
                          ["value names: upper-snake names of the FIRST schemas; v4 field names pinned from the pinned commit (the statement does not fix them, the existing tests do)",
                           "a v2 score that is undefined constrains nothing; severity strings compared case-insensitively"],
-                         required=("covering", "v2", "v3", "v4", "zero-score-in-optional-slot", "explicit-ND", "modified-defined", "sweep:v2", "sweep:v3", "sweep:v4"))
+                         required=("covering", "v2", "v3", "v4", "zero-score-in-optional-slot", "explicit-ND", "modified-defined", "sweep:v2", "sweep:v3", "sweep:v4", "mutant", "one-edit-ball-member-tried"))
